@@ -440,6 +440,214 @@ fn recycle_inner(ctx: &mut Ctx, state: u64, case: &J) -> Result<(), String> {
 }
 
 // ------------------------------------------------------------------------------------------
+// recycled block cursor on raw term bytes: real reset vs expectation (oracle) and vs the model
+// ------------------------------------------------------------------------------------------
+fn check_recycle_codec(ctx: &mut Ctx, opt: Opt, a: &(Vec<u32>, Vec<u32>), b: &(Vec<u32>, Vec<u32>), mv: &str, model: bool) {
+    use crate::props::c07::real_postings_bytes;
+    let case = json!({"kind": "recycle-codec", "opt": opt.name(), "a_docs": a.0, "a_tfs": a.1, "b_docs": b.0, "b_tfs": b.1, "move": mv});
+    ctx.report.case(&format!("recycle-codec|{}|{}|{}|{mv}|{:?}", opt.name(), a.0.len(), b.0.len(), b.0.first()), !b.0.is_empty());
+    ctx.report.count(&format!("recycle-codec:{}", &mv[..1]));
+    let tfs_a: Vec<u32> = if opt == Opt::Basic { vec![1; a.0.len()] } else { a.1.clone() };
+    let tfs_b: Vec<u32> = if opt == Opt::Basic { vec![1; b.0.len()] } else { b.1.clone() };
+    let r = catch_unwind(AssertUnwindSafe(|| -> Result<(Vec<u8>, Vec<u8>, Vec<u32>, Vec<u32>), String> {
+        let ba = real_postings_bytes(opt, &a.0, &tfs_a);
+        let bb = real_postings_bytes(opt, &b.0, &tfs_b);
+        let mut cur = tantivy::verif::c07_open_block_postings(a.0.len() as u32, ba.clone(), opt.real(), opt.real()).map_err(|e| e.to_string())?;
+        if mv == "D" {
+            drain(&mut cur, false, a.0.len() + 300);
+        } else if let Some(k) = mv.strip_prefix('A') {
+            for _ in 0..k.parse::<usize>().unwrap_or(0) {
+                cur.advance();
+            }
+        } else if let Some(t) = mv.strip_prefix('S') {
+            cur.seek(t.parse::<u32>().unwrap_or(0));
+        }
+        tantivy::verif::c07_block_postings_reset(&mut cur, b.0.len() as u32, bb.clone()).map_err(|e| e.to_string())?;
+        let (d, t) = drain(&mut cur, opt != Opt::Basic, b.0.len() + 300);
+        Ok((ba, bb, d, t))
+    }));
+    let (ba, bb, d, t) = match r {
+        Ok(Ok(x)) => x,
+        Ok(Err(e)) => { ctx.report.violation("oracle", "C07:read-error", format!("recycle-codec: {e}"), case); return; }
+        Err(p) => { ctx.report.violation("oracle", "C07:panic", format!("recycle-codec ({} -> {} docs, {mv}): {}", a.0.len(), b.0.len(), panic_msg(p)), case); return; }
+    };
+    if d != b.0 || (opt != Opt::Basic && t != tfs_b) {
+        let i = d.iter().zip(&b.0).position(|(x, y)| x != y).unwrap_or(d.len().min(b.0.len()));
+        ctx.report.violation("oracle", "C07:recycled-cursor", format!("{}: block cursor of a {}-doc list after {mv}, reset to a {}-doc list: read {} docs, first difference at index {i}: got {:?} expected {:?}", opt.name(), a.0.len(), b.0.len(), d.len(), d.get(i), b.0.get(i)), case.clone());
+    }
+    if model {
+        let m = ctx.model.ask(&format!("C07 recycle {} {} {} {mv} {} {}", opt.name(), a.0.len(), hex(&ba), b.0.len(), hex(&bb)));
+        let real = format!("{}|{}", crate::model::nat_list(&d), crate::model::nat_list(&if opt == Opt::Basic { vec![1u32; d.len()] } else { t.clone() }));
+        if m != real {
+            let sh = |s: &str| if s.len() > 120 { format!("{}…", &s[..120]) } else { s.to_string() };
+            ctx.report.violation("model", "C07:model-recycle", format!("{}: cursor of {} docs after {mv}, reset to {} docs: real {} model {}", opt.name(), a.0.len(), b.0.len(), sh(&real), sh(&m)), case);
+        }
+    }
+}
+
+// ------------------------------------------------------------------------------------------
+// JSON field with positions: `positions()` on a non-text term (number / bool / date)
+// ------------------------------------------------------------------------------------------
+/// Known finding `C07:json-nontext-positions-panic`: in a JSON field indexed with positions,
+/// non-text leaves are recorded with the doc-id-only recorder (no tf, 1-byte empty position
+/// stream), but `read_postings(.., WithFreqsAndPositions)` still attaches a PositionReader and
+/// `positions()` reads `term_freq() = 1` position from it. Attribution is narrow: JSON field,
+/// positional option, non-text term, the failing call is `positions()`; docs / term_freq / text
+/// terms failing get other keys.
+fn check_json_nontext_positions(ctx: &mut Ctx, ndocs: u32) {
+    use tantivy::schema::JsonObjectOptions;
+    let case = json!({"kind": "json-nontext-positions", "ndocs": ndocs});
+    let r = catch_unwind(AssertUnwindSafe(|| -> Result<(), String> {
+        let mut sb = Schema::builder();
+        let idx = TextFieldIndexing::default().set_tokenizer("default").set_index_option(IndexRecordOption::WithFreqsAndPositions);
+        let f = sb.add_json_field("j", JsonObjectOptions::default().set_indexing_options(idx));
+        let index = Index::create_in_ram(sb.build());
+        let mut w: IndexWriter = index.writer_with_num_threads(1, 50_000_000).map_err(|e| e.to_string())?;
+        for d in 0..ndocs {
+            let v: serde_json::Value = json!({"n": 5, "t": "hello world hello", "b": d % 2 == 0, "k": {"x": d}});
+            let mut doc = TantivyDocument::default();
+            doc.add_object(f, v.as_object().unwrap().iter().map(|(k, v)| (k.clone(), tantivy::schema::OwnedValue::from(v.clone()))).collect());
+            w.add_document(doc).map_err(|e| e.to_string())?;
+        }
+        w.commit().map_err(|e| e.to_string())?;
+        drop(w);
+        let reader = index.reader().map_err(|e| e.to_string())?;
+        let searcher = reader.searcher();
+        let inv = searcher.segment_reader(0).inverted_index(f).map_err(|e| e.to_string())?;
+        let mut stream = inv.terms().stream().map_err(|e| e.to_string())?;
+        let mut terms: Vec<(Vec<u8>, tantivy::postings::TermInfo)> = vec![];
+        while stream.advance() {
+            terms.push((stream.key().to_vec(), stream.value().clone()));
+        }
+        for (key, ti) in terms {
+            // [path] 0x00 [type code] [value]
+            let Some(z) = key.iter().position(|b| *b == 0) else { continue };
+            let is_text = key.get(z + 1) == Some(&b's');
+            let kind = if is_text { "text" } else { "non-text" };
+            ctx.report.count(&format!("json-positions:{kind}"));
+            ctx.report.case(&format!("json-nontext|{ndocs}|{}", hex(&key)), true);
+            // docs and term_freq first (must work for every term)
+            let basic = catch_unwind(AssertUnwindSafe(|| -> Result<(Vec<u32>, Vec<u32>), String> {
+                let mut sp = inv.read_postings_from_terminfo(&ti, IndexRecordOption::WithFreqsAndPositions).map_err(|e| e.to_string())?;
+                let (mut docs, mut tfs) = (vec![], vec![]);
+                while sp.doc() != TERMINATED {
+                    docs.push(sp.doc());
+                    tfs.push(sp.term_freq());
+                    sp.advance();
+                }
+                Ok((docs, tfs))
+            }));
+            match basic {
+                Ok(Ok((docs, _))) if docs.len() == ti.doc_freq as usize => {}
+                other => {
+                    ctx.report.violation("oracle", "C07:json", format!("JSON {kind} term {}: docs/term_freq read failed: {:?}", hex(&key), other.map_err(|_| "panic")), case.clone());
+                    continue;
+                }
+            }
+            let pos = catch_unwind(AssertUnwindSafe(|| -> Result<Vec<Vec<u32>>, String> {
+                let mut sp = inv.read_postings_from_terminfo(&ti, IndexRecordOption::WithFreqsAndPositions).map_err(|e| e.to_string())?;
+                let mut out = vec![];
+                while sp.doc() != TERMINATED {
+                    let mut p = vec![];
+                    sp.positions(&mut p);
+                    out.push(p);
+                    sp.advance();
+                }
+                Ok(out)
+            }));
+            match (is_text, pos) {
+                (true, Ok(Ok(ps))) if ps.iter().all(|p| !p.is_empty()) => {}
+                (false, Ok(Ok(ps))) if ps.iter().all(|p| p.is_empty()) => {}
+                (false, Err(p)) => {
+                    ctx.report.violation(
+                        "oracle",
+                        "C07:json-nontext-positions-panic",
+                        format!("JSON field with positions, non-text term {} ({} docs): positions() panicked: {}", hex(&key), ti.doc_freq, panic_msg(p)),
+                        case.clone(),
+                    );
+                }
+                (_, other) => {
+                    ctx.report.violation("oracle", "C07:json", format!("JSON {kind} term {}: positions() gave {:?}", hex(&key), other.map_err(|_| "panic")), case.clone());
+                }
+            }
+        }
+        Ok(())
+    }));
+    match r {
+        Ok(Ok(())) => {}
+        Ok(Err(e)) => ctx.report.violation("oracle", "C07:read-error", format!("json non-text positions case: {e}"), case),
+        Err(p) => ctx.report.violation("oracle", "C07:panic", format!("json non-text positions case: {}", panic_msg(p)), case),
+    }
+}
+
+// ------------------------------------------------------------------------------------------
+// JSON field: recycled block cursor across a text term and a number term (>= 128 docs each)
+// ------------------------------------------------------------------------------------------
+/// `BlockSegmentPostings::open` decides per term whether skip entries carry frequencies (JSON
+/// numbers do not, JSON text does); `reset` keeps the decision of the term the cursor was opened on.
+fn check_json_recycle(ctx: &mut Ctx, ndocs: u32, opt: Opt) {
+    use tantivy::schema::JsonObjectOptions;
+    let case = json!({"kind": "json-recycle", "ndocs": ndocs, "opt": opt.name()});
+    let r = catch_unwind(AssertUnwindSafe(|| -> Result<(), String> {
+        let mut sb = Schema::builder();
+        let idx = TextFieldIndexing::default().set_tokenizer("raw").set_index_option(opt.real());
+        let f = sb.add_json_field("j", JsonObjectOptions::default().set_indexing_options(idx));
+        let index = Index::create_in_ram(sb.build());
+        let mut w: IndexWriter = index.writer_with_num_threads(1, 50_000_000).map_err(|e| e.to_string())?;
+        for d in 0..ndocs {
+            let v: serde_json::Value = if d % 3 == 2 { json!({"t": "word"}) } else { json!({"n": 5, "t": "word"}) };
+            let mut doc = TantivyDocument::default();
+            doc.add_object(f, v.as_object().unwrap().iter().map(|(k, v)| (k.clone(), tantivy::schema::OwnedValue::from(v.clone()))).collect());
+            w.add_document(doc).map_err(|e| e.to_string())?;
+        }
+        w.commit().map_err(|e| e.to_string())?;
+        drop(w);
+        let reader = index.reader().map_err(|e| e.to_string())?;
+        let searcher = reader.searcher();
+        let inv = searcher.segment_reader(0).inverted_index(f).map_err(|e| e.to_string())?;
+        let mut stream = inv.terms().stream().map_err(|e| e.to_string())?;
+        let mut terms: Vec<(bool, tantivy::postings::TermInfo)> = vec![];
+        while stream.advance() {
+            let key = stream.key();
+            let z = key.iter().position(|b| *b == 0).unwrap_or(0);
+            terms.push((key.get(z + 1) == Some(&b's'), stream.value().clone()));
+        }
+        let text = terms.iter().find(|t| t.0).ok_or("no text term")?.1.clone();
+        let num = terms.iter().find(|t| !t.0).ok_or("no number term")?.1.clone();
+        let want_text: Vec<u32> = (0..ndocs).collect();
+        let want_num: Vec<u32> = (0..ndocs).filter(|d| d % 3 != 2).collect();
+        for (name, first, second, want) in [("text->number", &text, &num, &want_num), ("number->text", &num, &text, &want_text), ("text->text", &text, &text, &want_text), ("number->number", &num, &num, &want_num)] {
+            for req in [Opt::Basic, opt] {
+                ctx.report.case(&format!("json-recycle|{ndocs}|{}|{name}|{}", opt.name(), req.name()), true);
+                ctx.report.count(&format!("json-recycle:{name}"));
+                let got = catch_unwind(AssertUnwindSafe(|| -> Result<Vec<u32>, String> {
+                    let mut cur = inv.read_block_postings_from_terminfo(first, req.real()).map_err(|e| e.to_string())?;
+                    inv.reset_block_postings_from_terminfo(second, &mut cur).map_err(|e| e.to_string())?;
+                    Ok(drain(&mut cur, false, ndocs as usize + 300).0)
+                }));
+                let same_kind = name == "text->text" || name == "number->number";
+                let key = if same_kind { "C07:recycled-cursor" } else { "C07:json-reset-record-option" };
+                match got {
+                    Ok(Ok(d)) if &d == want => {}
+                    Ok(Ok(d)) => {
+                        let i = d.iter().zip(want.iter()).position(|(x, y)| x != y).unwrap_or(d.len().min(want.len()));
+                        ctx.report.violation("oracle", key, format!("JSON field ({}, requested {}), {ndocs} docs: block cursor opened on the {} term and reset to the {} term reads {} docs (expected {}), first difference at index {i}: got {:?} expected {:?}", opt.name(), req.name(), name.split("->").next().unwrap(), name.split("->").nth(1).unwrap(), d.len(), want.len(), d.get(i), want.get(i)), case.clone());
+                    }
+                    Ok(Err(e)) => ctx.report.violation("oracle", key, format!("JSON field ({}), {name}: {e}", opt.name()), case.clone()),
+                    Err(p) => ctx.report.violation("oracle", key, format!("JSON field ({}, requested {}), {ndocs} docs, {name}: reading after reset panicked: {}", opt.name(), req.name(), panic_msg(p)), case.clone()),
+                }
+            }
+        }
+        Ok(())
+    }));
+    match r {
+        Ok(Ok(())) => {}
+        Ok(Err(e)) => ctx.report.violation("oracle", "C07:read-error", format!("json recycle case: {e}"), case),
+        Err(p) => ctx.report.violation("oracle", "C07:panic", format!("json recycle case: {}", panic_msg(p)), case),
+    }
+}
+
+// ------------------------------------------------------------------------------------------
 // TermInfoStore (through the public TermDictionaryBuilder / TermDictionary)
 // ------------------------------------------------------------------------------------------
 type Ti = (u32, u64, u64, u64, u64); // doc_freq, postings start..end, positions start..end
@@ -549,6 +757,14 @@ pub fn replay(ctx: &mut Ctx, case: &J) -> bool {
         "vint32" => check_vint32(ctx, case["v"].as_u64().unwrap_or(0) as u32, true),
         "thresholds" => run_threshold_variant(ctx, case),
         "recycle" => check_recycle(ctx, case["state"].as_str().and_then(|s| s.parse().ok()).unwrap_or(0)),
+        "recycle-codec" => {
+            let u = |k: &str| -> Vec<u32> { case[k].as_array().map(|a| a.iter().filter_map(|x| x.as_u64()).map(|x| x as u32).collect()).unwrap_or_default() };
+            let opt = Opt::from_name(case["opt"].as_str().unwrap_or("")).unwrap_or(Opt::Basic);
+            let has = ctx.model.ask("C07 recycle basic 0 - A0 0 -") != "bad-op";
+            check_recycle_codec(ctx, opt, &(u("a_docs"), u("a_tfs")), &(u("b_docs"), u("b_tfs")), case["move"].as_str().unwrap_or("A0"), has);
+        }
+        "json-recycle" => check_json_recycle(ctx, case["ndocs"].as_u64().unwrap_or(300) as u32, Opt::from_name(case["opt"].as_str().unwrap_or("")).unwrap_or(Opt::Freqs)),
+        "json-nontext-positions" => check_json_nontext_positions(ctx, case["ndocs"].as_u64().unwrap_or(3) as u32),
         "terminfo" => {
             let tis: Vec<Ti> = case["infos"].as_array().map(|a| a.iter().filter_map(|x| {
                 let p: Vec<u64> = x.as_str()?.split(':').filter_map(|t| t.parse().ok()).collect();
@@ -580,6 +796,30 @@ pub fn run(ctx: &mut Ctx, model_has_vint32: bool) {
     for _ in 0..ctx.budget(6, 120) {
         let state = ctx.rng.fork().0;
         check_recycle(ctx, state);
+    }
+    let has_recycle = ctx.model.ask("C07 recycle basic 0 - A0 0 -") != "bad-op";
+    if !has_recycle {
+        ctx.report.violation("model", "C07:model-unavailable", "the Lean driver answers bad-op for recycle".into(), json!({"kind": "probe"}));
+    }
+    let mut rng2 = ctx.rng.fork();
+    for _ in 0..ctx.budget(150, 3000) {
+        let opt = *rng2.pick(&[Opt::Basic, Opt::Freqs, Opt::Positions]);
+        let (da, ta, _) = crate::props::c07::gen_posting_list(&mut rng2);
+        let (db, tb, _) = crate::props::c07::gen_posting_list(&mut rng2);
+        let mv = match rng2.below(5) {
+            0 => "A0".to_string(),
+            1 => "A1".to_string(),
+            2 => format!("A{}", 2 + rng2.below(4)),
+            3 => "D".to_string(),
+            _ => if da.is_empty() { "A1".to_string() } else { format!("S{}", da[rng2.usize_below(da.len())]) },
+        };
+        check_recycle_codec(ctx, opt, &(da, ta), &(db, tb), &mv, has_recycle);
+    }
+    for (ndocs, opt) in [(50u32, Opt::Freqs), (400, Opt::Basic), (400, Opt::Freqs), (400, Opt::Positions)] {
+        check_json_recycle(ctx, ndocs, opt);
+    }
+    for ndocs in [1u32, 3, 130] {
+        check_json_nontext_positions(ctx, ndocs);
     }
     let has_tis = ctx.model.ask("C07 tis_write -") != "bad-op";
     if !has_tis {
